@@ -144,6 +144,26 @@ def mdev(A, B):
     return float(d / max(sc, 1e-300)), n
 
 
+def adev(A, B, scale):
+    """max|A-B| / scale on entries that are not NaN in both; returns (dev, ncompared).
+    `scale` is the magnitude rounding errors are relative to (>= max|A|, max|B| normally)."""
+    A = np.asarray(A, dtype=np.float64)
+    B = np.asarray(B, dtype=np.float64)
+    if A.shape != B.shape:
+        return float("inf"), 0
+    mask = ~(np.isnan(A) | np.isnan(B))
+    n = int(mask.sum())
+    if n == 0:
+        return 0.0, 0
+    a, b = A[mask], B[mask]
+    if not (np.all(np.isfinite(a)) and np.all(np.isfinite(b))):
+        return (0.0 if np.array_equal(a, b) else float("inf")), n
+    d = float(np.max(np.abs(a - b)))
+    if d == 0.0:
+        return 0.0, n
+    return d / max(float(scale), 1e-300), n
+
+
 # ----------------------------------------------------------------- probing ---
 class Monitor:
     """Wraps op.apply: input-unchanged and output-on-target contracts on every call."""
